@@ -270,6 +270,46 @@ func storeRoot(ins ssa.Instruction) ssa.Instruction {
 	return nil
 }
 
+// storeBase returns the slice or pointer value whose object a store writes into (through field and
+// index chains), and whether it is a slice.
+func storeBase(ins ssa.Instruction) (ssa.Value, bool) {
+	st, ok := ins.(*ssa.Store)
+	if !ok {
+		return nil, false
+	}
+	v := st.Addr
+	for {
+		switch x := v.(type) {
+		case *ssa.FieldAddr:
+			if isInterior(x.X) {
+				v = x.X
+				continue
+			}
+			if _, ok := x.X.(*ssa.Global); ok {
+				return nil, false
+			}
+			return x.X, false
+		case *ssa.IndexAddr:
+			switch types.Unalias(x.X.Type()).Underlying().(type) {
+			case *types.Slice:
+				return x.X, true
+			case *types.Pointer:
+				if isInterior(x.X) {
+					v = x.X
+					continue
+				}
+				if _, ok := x.X.(*ssa.Global); ok {
+					return nil, false
+				}
+				return x.X, false
+			}
+			return nil, false
+		default:
+			return nil, false
+		}
+	}
+}
+
 func (P *Prog) instrMods(ins ssa.Instruction, inScope func(*ssa.BasicBlock) bool) []string {
 	fresh := func(v ssa.Value) bool {
 		r := allocRoot(v)
@@ -354,6 +394,9 @@ func (P *Prog) callMods(com *ssa.CallCommon) []string {
 	}
 	if c, ok := P.Spec.Contracts[key]; ok {
 		for _, ga := range c.Epilogue {
+			out[ga.Var] = true
+		}
+		for _, ga := range c.Prologue {
 			out[ga.Var] = true
 		}
 		if c.HasMod {
@@ -681,4 +724,136 @@ func heapTypeKey(t types.Type) string {
 		return types.Typ[b.Kind()].Name() // byte -> uint8, rune -> int32
 	}
 	return typeStr(t)
+}
+
+// reachHeapTypes is reachHeaps with the type of the values each heap holds (nil for map-domain heaps).
+func reachHeapTypes(t types.Type, seen map[string]bool, out map[string]types.Type) {
+	t = types.Unalias(t)
+	ts := typeStr(t)
+	if seen[ts] {
+		return
+	}
+	seen[ts] = true
+	pointee := func(el types.Type) {
+		el = types.Unalias(el)
+		if isExpandedStruct(el) {
+			s := el.Underlying().(*types.Struct)
+			for i := 0; i < s.NumFields(); i++ {
+				out[regField(el, i)] = s.Field(i).Type()
+			}
+			return
+		}
+		if at, ok := el.Underlying().(*types.Array); ok {
+			out[regArr(at.Elem())] = at.Elem()
+			return
+		}
+		out[regCell(el)] = el
+	}
+	switch u := t.Underlying().(type) {
+	case *types.Pointer:
+		pointee(u.Elem())
+		reachHeapTypes(u.Elem(), seen, out)
+	case *types.Struct:
+		if !expandStruct(t) {
+			return
+		}
+		for i := 0; i < u.NumFields(); i++ {
+			reachHeapTypes(u.Field(i).Type(), seen, out)
+		}
+	case *types.Slice:
+		out[regArr(u.Elem())] = u.Elem()
+		reachHeapTypes(u.Elem(), seen, out)
+	case *types.Array:
+		reachHeapTypes(u.Elem(), seen, out)
+	case *types.Map:
+		d, v := regMap(u)
+		out[d], out[v] = nil, u.Elem()
+		reachHeapTypes(u.Key(), seen, out)
+		reachHeapTypes(u.Elem(), seen, out)
+	}
+}
+
+// decoders write only into the object they are given and into objects they allocate.
+var decoderFuncs = map[string]int{"encoding/json.Unmarshal": 1, "(*encoding/json.Decoder).Decode": 0}
+
+// zeroLocalTarget reports the local variable a decoder call fills when that variable still holds its
+// zero value at the call (nothing pre-existing is reachable from it): no other write to it can precede the call.
+func zeroLocalTarget(call ssa.Instruction, arg ssa.Value) *ssa.Alloc {
+	boxed := arg
+	if mi, ok := arg.(*ssa.MakeInterface); ok {
+		arg = mi.X
+	}
+	a, ok := arg.(*ssa.Alloc)
+	if !ok || a.Referrers() == nil {
+		return nil
+	}
+	idx := func(ins ssa.Instruction) int {
+		for i, x := range ins.Block().Instrs {
+			if x == ins {
+				return i
+			}
+		}
+		return -1
+	}
+	after := func(r ssa.Instruction) bool {
+		if r.Block() == call.Block() {
+			return idx(r) > idx(call)
+		}
+		return call.Block().Dominates(r.Block())
+	}
+	var writes func(v ssa.Value, depth int) bool // some write through v is not after the call
+	writes = func(v ssa.Value, depth int) bool {
+		if v.Referrers() == nil || depth > 4 {
+			return true
+		}
+		for _, r := range *v.Referrers() {
+			if r == call {
+				continue
+			}
+			switch x := r.(type) {
+			case *ssa.Store:
+				if x.Addr == v && !after(r) {
+					return true
+				}
+				if x.Val == v {
+					return true // address escapes
+				}
+			case *ssa.FieldAddr:
+				if writes(x, depth+1) {
+					return true
+				}
+			case *ssa.IndexAddr:
+				if writes(x, depth+1) {
+					return true
+				}
+			case *ssa.UnOp, *ssa.DebugRef:
+			case *ssa.MakeInterface:
+				if ssa.Value(x) != boxed && !after(r) {
+					return true
+				}
+				if ssa.Value(x) != boxed {
+					continue
+				}
+				// the boxed pointer handed to the decoder: only this call may use it
+				if x.Referrers() != nil {
+					for _, rr := range *x.Referrers() {
+						if rr != call {
+							if _, dbg := rr.(*ssa.DebugRef); !dbg {
+								return true
+							}
+						}
+					}
+				}
+			default:
+				if !after(r) {
+					return true
+				}
+			}
+		}
+		return false
+	}
+	if writes(a, 0) {
+		return nil
+	}
+	return a
 }
